@@ -83,6 +83,8 @@ COMPOSITES = {
                                        V("st", S([V("x", U8, bytepos=1), V("y", U8, bytepos=0)])),
                                        TAIL]},
     "structure-bytesize": {"params": [SID, V("st", S([V("x", U8)], byte_size=3)), TAIL]},
+    # a padded structure as the final object: the padding bytes belong to the PDU
+    "structure-bytesize-last": {"params": [SID, V("pre", U8), V("st", S([V("x", U8)], byte_size=4))]},
     "structure-bytesize-offset": {"params": [SID, V("pre", U16),
                                              V("st", S([V("x", U8)], byte_size=3)), TAIL]},
     "nested-structure": {"params": [SID, V("outer", S([
@@ -187,6 +189,15 @@ COMPOSITES = {
     "length-key-signed": {"params": [SID, dict(kind="lengthkey", name="lk", id="LK7", dop=S8),
                                      V("data", dict(dt="A_UINT32", dct="paramlen", length_key="LK7")), TAIL],
                           "lengths": [8, 16]},
+    # an explicitly positioned length key inside a structure that does not start at byte 0
+    "length-key-positioned-in-structure": {"params": [SID, V("pre", U8), V("st", S([
+        V("x", U8, bytepos=0), dict(kind="lengthkey", name="lk", id="LK8", dop=U8, bytepos=1)])),
+        V("data", dict(dt="A_UINT32", dct="paramlen", length_key="LK8")), TAIL], "lengths": [8, 16]},
+    # key and keyed data inside a structure, more data behind the structure
+    "length-key-and-data-in-structure": {"params": [SID, V("blob", S([
+        dict(kind="lengthkey", name="lk", id="LK9", dop=U8),
+        V("data", dict(dt="A_UINT32", dct="paramlen", length_key="LK9"))])), V("chk", U8)],
+        "lengths": [8, 16]},
     "length-key-implicit": {"params": [SID, dict(kind="lengthkey", name="lk", id="LK2", dop=U8),
                                        V("data", dict(dt="A_UINT32", dct="paramlen", length_key="LK2")),
                                        TAIL], "lengths": [None]},
@@ -712,6 +723,11 @@ def require_same(sx, got, want, label, path=""):
 # descriptions used by single harnesses only (not part of the common catalogue)
 TBL_EMPTY_ROW = dict(TBL, name="tbl_e", rows=TBL["rows"] + [{"name": "r9", "key": 9}])
 EXTRA_REQUESTS = {
+    # a length key whose DOP does not convert every coded value (limits 0..24)
+    "length-key-limited-dop": {"params": [SID, dict(kind="lengthkey", name="lk", id="LKA", dop=dict(
+        dt="A_UINT32", bl=8, ptype="A_UINT32",
+        cm={"cat": "LINEAR", "scales": [{"num": [0, 1], "den": [1], "lo": 0, "hi": 24}]})),
+        V("data", dict(dt="A_UINT32", dct="paramlen", length_key="LKA")), TAIL]},
     # a table row that references neither a DOP nor a structure (decoding only)
     "table-empty-row": {"params": [SID, dict(kind="tablekey", name="tk", id="TK9", table=TBL_EMPTY_ROW),
                                    dict(kind="tablestruct", name="ts", key="TK9"), TAIL]},
@@ -876,7 +892,12 @@ def _run_composite(sx, cfg, env, obj, spec, prop, shape, vals, renv, kwargs):
         if cfg["what"] == "request":
             pre = obj.coded_const_prefix()
         else:
-            pre = obj.coded_const_prefix(request_prefix=kwargs["coded_request"])
+            # (asked for another request of the same length first: the answer depends on the
+            # request given, not on an earlier call)
+            rq_ = kwargs["coded_request"]
+            if rq_ is not None and len(rq_):
+                obj.coded_const_prefix(request_prefix=bytes([0x55]) * len(rq_))
+            pre = obj.coded_const_prefix(request_prefix=rq_)
         sx.require(len(pre) <= len(pdu), "coded-const-prefix-is-a-prefix")
         sx.require(core.frozen(pdu)[:len(pre)] == core.frozen(pre), "coded-const-prefix-is-a-prefix")
         req_names = sorted(p.short_name for p in obj.required_parameters)
